@@ -1,5 +1,30 @@
 """Per-property manifest text: level claimed, trusted base, technique."""
 TEXT = {
+    "C23": dict(
+        level="Held on every observed call: each of the 17 precompiles, in every pricing fork in which it exists, is called on generated inputs at gas limits {0, cost-1, cost, cost+1, 2^64-1, random} and compared with independent definitions (own SHA-256/RIPEMD-160/BLAKE2-F, BigUint modexp with EIP-198/2565 pricing, BigUint affine arithmetic for secp256k1, BN254 and BLS12-381 incl. Fp2, public-key recovery, EIP-2537 discount tables): same bytes and same gas on success, failure where defined, out-of-gas exactly when the defined cost exceeds the limit; every fifth input also through a real CALL. Pairing / KZG verdicts are decided for inputs whose answer is known by construction; map-to-curve outputs are checked for subgroup membership.",
+        note="Trusted: pcref.rs (its constants are validated by a self-test with its own arithmetic; a failing self-test makes the run inconclusive), num-bigint. Pairing, KZG and map-to-curve *values* outside the constructed classes are not judged here (cost and input validity are); C24 compares them across back ends and C01 replays the shipped EEST precompile fixtures. Paying limits are only used while the defined cost is <= 50 M gas.",
+        technique="runtime monitoring: differential execution against independent executable definitions, per pricing fork, directly and through the Evm; release and debug-assertions lanes",
+    ),
+    "C24": dict(
+        level="Held on every observed input: the same seeded stream of ecrecover inputs (signatures made by the harness, high-s twins, bad v, r/s at the group-order boundaries, short/long/random) and KZG point-evaluation inputs (every 192-byte input of the shipped fixtures, their mutations incl. commitment mutations with recomputed versioned hash, constant-polynomial triples) is executed by a build with the C back ends (secp256k1, c-kzg) and a build with the pure-Rust ones (k256, kzg-rs); the result dumps must be identical line by line (bytes, gas, error class).",
+        note="Trusted: the comparer (tools/c24runner.py) and that the two lanes really select different back ends (checked with cargo tree: rel has secp256k1+c-kzg, alt has only k256+kzg-rs).",
+        technique="runtime monitoring: differential execution of one workload under two build configurations (lanes rel and alt), offline comparison of recorded result logs",
+    ),
+    "C25": dict(
+        level="Held on every execution observed: raw legacy code of ten shapes (random up to 24 KiB, all-PUSH32 with truncated tail, all-JUMPDEST, trailing truncated PUSHn, opcode soup, jump-heavy, memory/copy/call operands at 2^64 and 2^256 boundaries, generated programs) on a bare interpreter that is resumed after every CALL/CREATE action with fabricated outcomes, and through the Evm (called and as init code) for every SpecId; containers accepted by EOF validation and the shipped OSAKA fixtures under OSAKA. Refuting observations: any panic (debug assertions and overflow checks in lane dbg), hook H1 (instruction pointer and immediates inside the code buffer before every dispatch / after every step), InterpreterAction::None, an undefined transaction outcome, gas above the limit, more dispatched instructions than the gas limit pays for; plus any AddressSanitizer (lane asan, optimised unchecked build), Miri (lane miri, bare-interpreter part) or valgrind memcheck (thorough) report in sharded single-threaded processes.",
+        note="Trusted: rustc's sanitizer runtimes, Miri, valgrind; the H1 hook (add-only, cfg-guarded). Gas limits above 10^7 run loop-free code; limits that can pay for more memory than the machine has run in child processes and an allocation failure there is the environment's limit, not a verdict. Miri cannot cross the C libraries, so its lane excludes the Evm part.",
+        technique="runtime monitoring and sanitizers: hostile bytecode workloads under debug assertions + instruction-pointer hook, AddressSanitizer, Miri and valgrind memcheck lanes (sharded processes, breadcrumb witness), step-count monitor",
+    ),
+    "C26": dict(
+        level="Held on every byte string observed: shipped EOF validation vectors, their mutations, structurally generated containers (sections, CALLF/JUMPF/RETF, RJUMP/RJUMPI/RJUMPV, loops, DUPN/SWAPN/EXCHANGE, data access, nested EOFCREATE/RETURNCONTRACT sub-containers, EXT*CALL), their mutations and random bytes: decode never panics; decode ok => encode_slow and raw() give back the input and decode(encode(e)) == e; validation gives the same verdict twice and through both entry points for each container kind. Every accepted container (about 94% of the generated ones, accepted mutants, accepted vectors) is executed under OSAKA directly, through a legacy caller and as a create transaction; any panic refutes. Lanes rel, dbg, asan (+ miri in thorough).",
+        note="Trusted: the generator only needs to reach the accepted region (the validator decides acceptance). Agreement of verdicts with the shipped vectors is measured (2011/2011 at the time of writing) but is not a criterion: the property does not state conformance.",
+        technique="runtime monitoring and sanitizers: round-trip and idempotence oracles on decode/validate, execution of every accepted container under debug assertions + instruction-pointer hook and AddressSanitizer",
+    ),
+    "C33": dict(
+        level="Held on every transaction observed (built with revm's optimism feature, lane op): for regular transactions under Bedrock..Isthmus the sum of all balances is unchanged, base-fee vault += basefee*gas_used, beneficiary += tip*gas_used, L1 vault += calculate_tx_l1_cost(enveloped) which for Bedrock/Regolith/Canyon/Ecotone must equal the fork's formula evaluated independently, operator vault += gas_used*scalar/1e6 + constant, sender debit == value moved + gas_used*price + L1 cost + operator fee; for deposits the sum grows by exactly the mint, the nonce is incremented, a failed deposit's state names only the sender with balance + mint, and no vault is paid.",
+        note="Trusted: BigUint arithmetic and the transcribed Bedrock/Ecotone cost formulas. Fjord+ L1 cost (FastLZ estimate) is compared with the public cost function only; the Bedrock fallback inside Ecotone (unset scalars, activation block only) is not judged; balances are kept below 2^200 (saturation at 2^256-1 is recorded under C08/C09); programs cannot name fee parties.",
+        technique="runtime monitoring: conservation and per-party payment checker over recorded pre/post states of generated Optimism transactions (lane op)",
+    ),
     "C12": dict(
         level="Held on every generated operation history: the real Stack is driven through its public API with random and boundary-steered sequences and an exhaustive push_slice length sweep while a Vec<[u8;32]> model is the oracle after every operation; run in the release lane (unchecked paths) and the debug-assertions lane (assume!/overflow checks become panics). Exploration is the level this family gives: no claim beyond the histories observed.",
         note="Trusted: the 60-line Vec model and the reading of 'right-padded' as zero-extension of a short last chunk (PUSHn semantics, pinned by the suite's own push_slices test). Miri lane for the raw-pointer copies runs in the thorough tier of C25.",
